@@ -28,9 +28,10 @@ EXTRA_RINGS = ["Modular<int8_t>", "Modular<uint8_t>", "Modular<int16_t>", "Modul
                "Modular<float,double>", "Modular<ruint<6>>", "ModularExtended<double>", "ModularExtended<float>"]
 # domains built over the reference-counted log-table ring (make18 of harness/c18_threads.C)
 REFCOUNTED = {"Modular<Log16>": 20000, "Poly1Dom<Modular<Log16>,Dense>": 5000, "Extension<Modular<Log16>>": 2000}       # class -> live copies per thread
-THREAD_CLASSES = THREAD_CLASSES + EXTRA_RINGS + [c for c in REFCOUNTED if c not in THREAD_CLASSES]
+THREAD_CLASSES = THREAD_CLASSES + EXTRA_RINGS + list(REFCOUNTED)
+THREAD_CLASSES = [c for i, c in enumerate(THREAD_CLASSES) if c not in THREAD_CLASSES[:i]]          # (C16 may add the same classes to its history list)
 MIXED = ("Mixed<values>", "MixedRotate<values>")
-EXTRA_V = ["RaceFreeDisjoint.v", "RaceFreeValues.v", "RaceFreeAtomic.v", "gen/RaceFreeGen.v", "RaceFreeProps.v"]        # (gen imports RaceFreeAtomic)      # the C18 engineer's part of coq/C16
+EXTRA_V = ["RaceFreeDisjoint.v", "RaceFreeValues.v", "RaceFreeAtomic.v", "RaceFreeRefcount.v", "RaceFreeDomains.v", "gen/RaceFreeGen.v", "RaceFreeProps.v"]        # (gen imports RaceFreeAtomic)      # the C18 engineer's part of coq/C16
 TRANSIENT = re.compile(r"inconsistent assumptions|bad version number|End_of_file|Cannot find a physical path|not a valid|No such file|Cannot open|Compiled library")
 
 
@@ -83,6 +84,14 @@ def values_model(chk):
         chk.broke("value-class footprint generator: the operation families of harness/c18_values.h are not in the AST dump", json.dumps(m)[:1500])
     if m.get("note"):
         chk.notes.append("value-class footprint generator ran in a reduced configuration: " + str(m["note"])[-300:])
+    # the translator's blind spot: a callee declared in the repository's namespaces without a body in the unit is a hole in the view
+    if m.get("repo_callees_without_body"):
+        chk.broke("footprint translator: %d callees declared in the repository have no body in the analysed unit (their effects are unknown): add their "
+                  "source file to LIB_DIRS of harness/c18_values.py or list them in REPO_NOBODY_OK with a reason" % len(m["repo_callees_without_body"]),
+                  "\n".join(m["repo_callees_without_body"][:60]))
+    if m.get("external_callees_not_in_table"):
+        chk.notes.append("external (libstdc++/GMP/libc) callees not in the effect table of harness/c18_values.py, assumed effect-free: " +
+                         ", ".join("%s x%d" % kv for kv in sorted(m["external_callees_not_in_table"].items())))
     reads = {}
     for o in res["ops"]:
         for t in o["effects"]:
@@ -92,7 +101,13 @@ def values_model(chk):
     chk.cov["value_classes"] = {
         "function_bodies_decided": len(res["ops"]), "reachable_from_thread_families": m.get("reachable_from_families"),
         "template_patterns_skipped": m.get("template_patterns_skipped"), "library_sources": m.get("library_sources"),
-        "writers_of_statics_all_documented": sorted("[%s] %s -> %s" % (c, o["uid"], ",".join(cv.writes_of(o) + cv.random_of(o))) for o, c, _ in doc)[:90],
+        "writers_of_statics_all_documented (category, function, statics)": sorted("[%s] %s -> %s" % (c, o["uid"], ",".join(cv.writes_of(o) + cv.random_of(o))) for o, c, _ in doc),
+        "documented_writer_rules (name pattern, statics, category, reason)": [[rx, sorted(names) if names else "any", cat, why] for rx, names, cat, why in cv.DOCUMENTED_WRITERS],
+        "callees_without_body": {"calls_seen": m.get("calls_seen"), "declared_in_repository_not_allowed": m.get("repo_callees_without_body"),
+                                 "declared_in_repository_allowed": {"%s -> %s" % k: v for k, v in cv.REPO_NOBODY_OK.items()},
+                                 "external_effect_free_by_table": m.get("external_callees_effect_free_by_table"),
+                                 "external_unsafe_counted_as_static_writes": m.get("external_callees_unsafe"),
+                                 "external_not_in_table_assumed_effect_free": m.get("external_callees_not_in_table")},
         "undocumented_writers": [o["uid"] for o in off],
         "ignored_statics (I/O streams: not domain state)": sorted(cv.IGNORED),
         "thread_unsafe_externals_treated_as_static_writes": sorted(cv.UNSAFE_EXTERNALS),
@@ -150,6 +165,16 @@ NO_COPY_IN_THREADS = {"RNSsystem<Integer,Modular<double>>"}   # Array0 members l
 ALLOCATOR_MARKS = ("GivMMFreeList", "GivMMRefCount", "GivMMInfo", "givaromm", "BlocFreeList")
 
 
+OUTSIDE_WHY = {
+    "StaticElement<Modular<double>>": "not a ring / field / polynomial-domain OBJECT: an element wrapper whose domain is the documented class static _domain "
+        "(StaticElement::setDomain is the documented setter, decided as such in the value sweep); its const members READ that static (effect RGlobal _domain), which "
+        "C16's decider counts as history dependence and therefore lists in C18_decided_race_free; for C18 a read of a parameter that only the documented setter "
+        "writes is no race (same rule as Rational::flags / rmint::p): checked here, any other effect is a failing input",
+    "GFqKronecker<TT,Ints>": "gfqkronecker.h does not compile in this tree (includes givaro/givzpz.h and givzpzInt.h, which do not exist): the class cannot be "
+        "instantiated, hence cannot be shared between threads; described by a textual scan only (the function-local static of polywrite is listed)",
+}
+
+
 def structural_c18(chk, descs):
     n_meth = n_ok = 0
     for d in descs:
@@ -160,8 +185,18 @@ def structural_c18(chk, descs):
         n_meth += len(claimed)
         n_ok += len(claimed) - len(off)
         if name in C16.NO_VERDICT:
-            if off:
-                chk.notes.append("%s: %d const methods touch shared state (%s)" % (name, len(off), C16.NO_VERDICT[name]))
+            # classes described but outside the property: say why, per class, and list what is hidden -- in full
+            hidden = []
+            for m in off:
+                fx = [e for e in mi.eff[id(m)] if e[0] not in ("RExcluded", "WStaticInit")]
+                hidden.append({"method": om.msite(m), "effects": [list(e) for e in fx]})
+                if name.startswith("StaticElement") and any(e[0] != "RGlobal" or e[1] != "_domain" for e in fx):
+                    # StaticElement's const members may READ the documented class static _domain (set by setDomain only); anything else is a finding
+                    chk.fail_input(om.msite(m), "static-element:" + ",".join(sorted(set("%s %s" % (e[0], e[1]) for e in fx))),
+                                   {"class": name, "method": om.mname(m), "effects": [list(e) for e in fx]},
+                                   "const members of StaticElement only read the documented static _domain", "%s: %s" % (m["name"], fx), "")
+            chk.cov.setdefault("classes_outside_the_property", {})[name] = {
+                "why": OUTSIDE_WHY.get(name, C16.NO_VERDICT[name]), "listed_in_C18_decided_race_free": len(off), "methods": hidden}
             continue
         for m in off:
             fx = [e for e in mi.eff[id(m)] if e[0] not in ("RExcluded", "WStaticInit")]
@@ -186,9 +221,26 @@ def structural_c18(chk, descs):
             ty = {f["name"]: f.get("type", "") for f in d["members"]}.get(rc["counter"], "")
             atomic[d["name"]] = {"counter": rc["counter"], "type": ty, "atomic": "atomic" in ty}
     chk.cov["reference_counts"] = atomic
-    rand = sorted(set("%s::%s" % (d["name"], m["name"]) for d in descs if d["name"] not in C16.NO_VERDICT
-                      for m in d["methods"] if m["const"] and om.Mirror(d).randomized(m)))
-    return n_meth, n_ok, rand
+    # const methods the C16 decider drops from the claim as "randomised" (claimed_b = const && !randomised): only the NAMED random entry
+    # points / randomised algorithms may be dropped; an arithmetic / init / convert / comparison operation that advances a generator is a
+    # failing input.  Listed in full.
+    rand = []
+    for d in descs:
+        if d["name"] in C16.NO_VERDICT:
+            continue
+        mi = om.Mirror(d)
+        for m in d["methods"]:
+            if m["const"] and mi.randomized(m):
+                names = sorted(set(e[1] for e in mi.eff[id(m)] if e[0] == "WRandom"))
+                fn = "%s::%s" % (m.get("cls") or d.get("clang_name") or d["name"], m["name"])
+                docd = cv.documented(fn, names)
+                rand.append("%s::%s [%s] %s" % (d["name"], m["name"], ",".join(names), docd[0] if docd else "NOT A NAMED RANDOM ENTRY POINT"))
+                if docd is None or not docd[0].startswith("random"):
+                    chk.fail_input(om.msite(m), "random-state:" + ",".join(names), {"class": d["name"], "method": om.mname(m), "effects": [list(e) for e in mi.eff[id(m)]]},
+                                   "only the named random entry points (random / nonzerorandom / seeding / RandIter / the randomised factorisation algorithms) advance a generator",
+                                   "%s advances %s" % (m["name"], ",".join(names)),
+                                   "a const operation of a shared object that draws from a generator writes state other threads use")
+    return n_meth, n_ok, sorted(set(rand))
 
 
 def _short_fn(fn):
@@ -235,7 +287,10 @@ def tsan_reports(stderr):
             # key: the function(s) performing the WRITE (stable across schedules); the reading side only when no write stack survived
             wr = sorted(set(a for a in acc if a.startswith("write-in:") and not a.endswith(":?")))
             klass = "|".join(wr or sorted(set(acc))) or kind
-            excl = any(k in rep for k in ALLOCATOR_MARKS)
+            # excluded = the racing ACCESSES themselves are inside the GivMM allocator (free lists: excluded by the property text); the
+            # "heap block allocated by" / thread-creation stacks do not count: a race on a cell that was merely allocated through GivMM is reported
+            stacks = re.findall(r"(?m)^  (?:Previous )?(?:[Aa]tomic )?(?:[Ww]rite|[Rr]ead) of size \d+ at \S+ by [^\n]*\n((?:    #\d+ [^\n]*\n)+)", rep)
+            excl = bool(stacks) and all(any(k in st for k in ALLOCATOR_MARKS) for st in stacks)
             out.append((cur, "%s:%s" % (f, line), klass, excl, rep[:3000], kind))
     return out
 
@@ -265,8 +320,16 @@ def run_requests(binary, reqs, jobs, timeout, env=None):
             with lock:
                 probs.append("harness process: %s" % ex)
         with lock:
-            for r, l in zip(chunk, lines):
-                out[r] = l
+            # answers are keyed by their first three tokens (class, parameter, threads), unique within one call: a child that prints twice
+            # (its line, then the parent's "X signal" for a crash in exit) cannot shift the answers of the later requests
+            bykey = {}
+            for l in lines:
+                k = tuple(l.split()[:3])
+                bykey[k] = (bykey[k] + " || " + l) if (k in bykey and bykey[k] != l) else l
+            for r in chunk:
+                k = tuple(r.split()[:3])
+                if k in bykey:
+                    out[r] = bykey[k]
             errs.append(err)
     ths = [threading.Thread(target=work, args=(c,)) for c in chunks]
     for t in ths:
@@ -331,7 +394,11 @@ def thread_requests(tier):
             reqs.append("CopyStorm:%s 0 2 %d\n" % (c, k))
         else:
             reqs.append("CopyStorm:%s 1 6 %d\n" % (c, 100 if tier == "quick" else 1000))
-    return reqs
+    return [r for i, r in enumerate(reqs) if r not in reqs[:i]]
+
+
+def is_ok(line):
+    return line is not None and line.rstrip().endswith(" ok") and "||" not in line
 
 
 def report_thread_line(chk, r, line, second=None):
@@ -379,6 +446,7 @@ def run_threads(chk, tier, res, builder):
     hb, log = res.get("std", (None, "build thread died"))
     n = 0
     forms = {}
+    floor = chk.cov.setdefault("floors", {})
     if hb is None:
         chk.broke("thread harness does not compile against /repo", log)
     else:
@@ -390,13 +458,19 @@ def run_threads(chk, tier, res, builder):
         out, err, probs = run_requests(hb, reqs, jobs=3, timeout=2400)
         for pb in probs:
             inconclusive(chk, "std::thread run: " + pb)
-        redo = []
+        redo, cpu = [], []
         for r in reqs:
             line = out.get(r)
             if line is None:
                 continue                         # not answered (a process timed out): already recorded as inconclusive
             t = r.split()
-            n += 1
+            if " T timeout" in line:
+                inconclusive(chk, "std::thread run did not finish in time (wall clock): " + r.strip())
+                continue
+            if " C cpu-limit" in line:
+                cpu.append((r, line))
+                continue
+            n += 1                               # only requests that were actually compared count
             chk.count(("threads", r), True)
             if t[0] in MIXED:
                 nf = max(1, len(forms))
@@ -406,27 +480,39 @@ def run_threads(chk, tier, res, builder):
                         forms[fam]["thread_runs"] += int(t[3]) if t[0] == "Mixed<values>" else max(1, int(t[3]) // nf)
             if len(chk.cov["samples"]) < 6 and n % 17 == 1:
                 chk.sample({"request": r.strip(), "observed": line})
-            if " ok" in line:
-                continue
-            if " T timeout" in line:
-                inconclusive(chk, "std::thread run did not finish in time: " + r.strip())
-                continue
-            redo.append((r, line))
+            if not is_ok(line):
+                redo.append((r, line))
+        for r, line in cpu:
+            # CPU time is load independent: the request alone, four times the budget; still not back -> "does not return"
+            o2, _, _ = run_requests(hb, [r], jobs=1, timeout=4800, env={"C18_CPU": "1200", "C18_ALARM": "4000"})
+            l2 = o2.get(r)
+            if l2 is not None and " C cpu-limit" in l2:
+                t = r.split()
+                chk.fail_input("threads:%s" % t[0], "does-not-return", {"class": t[0], "param": int(t[1]), "threads": int(t[2]), "iterations": int(t[3])},
+                               "the request returns", "%s | alone with 1200 s of CPU: %s" % (line, l2),
+                               "the threads of this request burn CPU without finishing (300 s, then 1200 s of CPU time alone): replay: echo '%s' | c18_threads" % r.strip())
+            elif is_ok(l2):
+                n += 1
+                inconclusive(chk, "std::thread run: '%s' exceeded 300 s of CPU once, finished alone: not reported" % r.strip())
+            else:
+                inconclusive(chk, "std::thread run: '%s' exceeded the CPU budget, second run answered '%s'" % (r.strip(), l2))
         if redo:
             # a difference / crash must reproduce before it is reported: same request, twice the iterations
             again = ["%s %s %s %d%s\n" % (r.split()[0], r.split()[1], r.split()[2], 2 * int(r.split()[3]), " nocopy" if "nocopy" in r else "") for r, _ in redo]
             out2, _, probs2 = run_requests(hb, again, jobs=min(3, len(again)), timeout=2400)
             for (r, line), r2 in zip(redo, again):
                 l2 = out2.get(r2)
-                if l2 is not None and " ok" not in l2 and " T timeout" not in l2:
+                if l2 is not None and not is_ok(l2) and " T timeout" not in l2 and " C cpu-limit" not in l2:
                     report_thread_line(chk, r, line, l2)
                 else:
                     inconclusive(chk, "std::thread run: '%s' answered '%s' once and '%s' in the second run (not reproduced: not reported)" % (r.strip(), line, l2))
+        floor["thread_requests"] = {"compared": n, "requested": len(reqs), "floor": int(0.9 * len(reqs))}
     chk.cov["thread_runs"] = n
     tb, tlog = res.get("tsan", (None, "build thread died"))
     if tb is None:
         inconclusive(chk, "ThreadSanitizer build failed (support run skipped)", tlog)
         chk.cov["call_forms_values"] = forms
+        floor["tsan_requests"] = {"compared": 0, "requested": None, "floor": 1}
         return
     reqs = []
     for c in THREAD_CLASSES:
@@ -435,7 +521,7 @@ def run_threads(chk, tier, res, builder):
     reqs.append("MixedRotate<values> 0 3 %d\n" % (9 if tier == "quick" else 18))
     for c in REFCOUNTED:
         reqs.append("CopyStorm:%s 2 4 %d\n" % (c, 300 if tier == "quick" else 2000))
-    env = {"TSAN_OPTIONS": "halt_on_error=0 exitcode=0 report_signal_unsafe=0 history_size=4", "C18_ALARM": "1500"}
+    env = {"TSAN_OPTIONS": "halt_on_error=0 exitcode=0 report_signal_unsafe=0 history_size=4", "C18_ALARM": "1500", "C18_CPU": "1500"}
     out, err, probs = run_requests(tb, reqs, jobs=5, timeout=2400, env=env)
     for pb in probs:
         inconclusive(chk, "ThreadSanitizer run: " + pb)
@@ -446,29 +532,36 @@ def run_threads(chk, tier, res, builder):
         line = out.get(r)
         if line is None:
             continue
+        if " T timeout" in line or " C cpu-limit" in line:
+            inconclusive(chk, "ThreadSanitizer run did not finish in time: %s (%s)" % (r.strip(), line))
+            continue
         nt += 1
-        if " T timeout" in line:
-            inconclusive(chk, "ThreadSanitizer run did not finish in time: " + r.strip())
         if r.split()[0] in MIXED:
             for fam in forms:
                 forms[fam]["tsan_runs"] += 1
     reports = tsan_reports(err)
-    seen = set()
-    nexcl = 0
+    first, nexcl = {}, 0
     for cls, where, klass, excl, text, kind in reports:
         if excl:
             nexcl += 1
             continue
-        key = (cls, klass)
-        if key in seen:
-            continue
-        seen.add(key)
-        chk.fail_input("tsan:" + cls, klass, {"class": cls, "where": where, "kind": kind, "threads": 3}, "no ThreadSanitizer report", text[:2500],
-                       "ThreadSanitizer build of harness/c18_threads.C + instrumented library: %s at %s (%s)" % (kind, where, klass))
+        first.setdefault((cls, klass), (where, text, kind))
+    if first:
+        # like a digest difference, a sanitizer report must reproduce: the requests of the reported classes once more
+        again = [r for r in reqs if r.split()[0] in set(c for c, _ in first)]
+        out2, err2, _ = run_requests(tb, again, jobs=min(5, len(again)), timeout=2400, env=env)
+        second = [(c, w, k) for c, w, k, ex, _, _ in tsan_reports(err2) if not ex]
+        for (cls, klass), (where, text, kind) in first.items():
+            if any(c == cls and (k == klass or w == where) for c, w, k in second):
+                chk.fail_input("tsan:" + cls, klass, {"class": cls, "where": where, "kind": kind, "threads": 3}, "no ThreadSanitizer report", text[:2500],
+                               "ThreadSanitizer build of harness/c18_threads.C + instrumented library: %s at %s (%s), reported again in a second run" % (kind, where, klass))
+            else:
+                inconclusive(chk, "ThreadSanitizer reported %s at %s for %s once, not in the second run of the same request: not reported" % (klass, where, cls), text[:300])
     chk.cov["tsan_classes_run"] = nt
     chk.cov["tsan_reports"] = len(reports)
-    chk.cov["tsan_reports_in_excluded_allocator"] = nexcl
+    chk.cov["tsan_reports_in_excluded_allocator (both racing accesses inside GivMM)"] = nexcl
     chk.cov["call_forms_values"] = forms
+    floor["tsan_requests"] = {"compared": nt, "requested": len(reqs), "floor": int(0.9 * len(reqs))}
 
 
 def main(tier, replay=None):
@@ -507,14 +600,23 @@ def main(tier, replay=None):
             inconclusive(chk, "coqc on the RaceFree* files of coq/C16 did not finish in time", res2["log"])
         else:
             chk.proof_result(res2, AREA, propfile="RaceFreeProps.v")
-            chk.cov["checker_cmd"] += " (RaceFreeDisjoint.v, RaceFreeValues.v, RaceFreeAtomic.v, gen/RaceFreeGen.v, RaceFreeProps.v are compiled by checks/C18.py with coqc -Q . C16, in this order)"
+            chk.cov["checker_cmd"] += " (RaceFreeDisjoint.v, RaceFreeValues.v, RaceFreeAtomic.v, RaceFreeRefcount.v, RaceFreeDomains.v, gen/RaceFreeGen.v, RaceFreeProps.v are compiled by checks/C18.py with coqc -Q . C16, in this order)"
     if descs:
         n_meth, n_ok, rand = structural_c18(chk, descs)
         chk.cov["claimed_const_methods"] = n_meth
         chk.cov["methods_decided_race_free"] = n_ok
-        chk.cov["randomised_operations_outside_claim"] = rand[:60]
+        chk.cov["randomised_operations_outside_claim (class::method [generator state] rule)"] = rand
         chk.cov["classes"] = C16.describe_for_evidence(descs)
     run_threads(chk, tier, builds, builder)
+    # floors: what must actually have been compared / re-checked for this run to count; tooling problems never pass silently
+    fl = chk.cov.setdefault("floors", {})
+    fl["theorems_rechecked"] = {"compared": chk.cov.get("discharged", 0), "requested": chk.cov.get("obligations", 0), "floor": 30}
+    fl["function_bodies_decided"] = {"compared": (chk.cov.get("value_classes") or {}).get("function_bodies_decided", 0), "requested": None, "floor": 3000}
+    missed = sorted(k for k, v in fl.items() if (v.get("compared") or 0) < (v.get("floor") or 0))
+    chk.cov["floor_missed"] = missed
+    chk.cov["inconclusive"] = [x["what"] for x in chk.cov.get("inconclusive_streams", [])]
+    if missed:
+        chk.notes.insert(0, "FLOOR MISSED (tooling, not a verdict): %s -- this run did NOT compare what a full run compares" % ", ".join(missed))
     chk.cov["rule"] = ("per class in scope: one shared object, (parameter set, threads) in {(0,2),(1,4),(2,8)} (thorough: 6 combinations up to 8 threads, "
                        "300 iterations); each thread repeats probe(shared) / copy-construct / probe(copy) / destroy and compares every digest with the "
                        "sequential digest; Mixed<values>: 9 operation families on thread-private Integer / Rational / ruint / rint / rmint values "
